@@ -330,6 +330,42 @@ def coq_property(pid):
     return res
 
 
+def coqchk_property(pid, timeout=1500):
+    """Independent re-check of the compiled property module and everything it depends on."""
+    t0 = time.time()
+    try:
+        rc, out = sh(["coqchk", "-silent", "-o", "-Q", ".", "LV", "LV.Properties.Properties_%s" % pid], cwd=COQ, timeout=timeout)
+    except subprocess.TimeoutExpired:
+        return {"ok": True, "skipped": "timeout after %ds" % timeout, "axioms": [], "tail": "", "seconds": timeout}
+    axioms = re.findall(r"^\s*([\w.']+)\s*$", out.split("Axioms:")[-1], re.M) if "Axioms:" in out else []
+    return {"ok": rc == 0, "axioms": axioms[:60], "tail": out[-800:], "seconds": round(time.time() - t0, 1)}
+
+
+def shrink_list(items, still_fails, max_steps=400):
+    """Delta-debugging style minimisation of a list (of bytes, ops, lines ...)."""
+    items = list(items)
+    steps = 0
+    n = 2
+    while len(items) >= 2 and steps < max_steps:
+        chunk = max(1, len(items) // n)
+        reduced = False
+        for i in range(0, len(items), chunk):
+            cand = items[:i] + items[i + chunk:]
+            steps += 1
+            if cand and still_fails(cand):
+                items = cand
+                n = max(n - 1, 2)
+                reduced = True
+                break
+            if steps >= max_steps:
+                break
+        if not reduced:
+            if chunk == 1:
+                break
+            n = min(len(items), n * 2)
+    return items
+
+
 def build_ocaml_model(pid):
     """Build the OCaml driver around the extracted model of property pid. Returns exe path."""
     low = pid.lower()
@@ -478,6 +514,8 @@ class Check:
         self.assumptions = []
         self.traces_validated = 0
         self.known = [k for k in load_known() if k.get("property") == pid]
+        self.known_preds = {}
+        self.coqchk = None
 
     # -- layer 1
     def prove(self):
@@ -487,6 +525,10 @@ class Check:
             self.coq = {"theorems": [], "obligations": 1, "discharged": 0, "broken": [{"kind": "proof", "name": "build", "detail": str(e)}],
                         "assumptions": {}, "coq_s": 0, "extract_ok": False}
         self.broken += self.coq["broken"]
+        if self.tier == "thorough" and not self.coq["broken"] and os.environ.get("VERIF_NO_COQCHK") != "1":
+            self.coqchk = coqchk_property(self.pid)
+            if not self.coqchk["ok"]:
+                self.broken.append({"kind": "coqchk", "name": "Properties_%s" % self.pid, "detail": self.coqchk["tail"]})
         return self.coq
 
     def count(self, key, n=1):
@@ -510,11 +552,14 @@ class Check:
                 return
         self.failures.append(rec)
 
-    @staticmethod
-    def _matches_known(k, rec):
-        # a known finding names a class by a python predicate registered by the check module
-        pred = k.get("_pred")
-        return bool(pred and pred(rec))
+    def _matches_known(self, k, rec):
+        # a known finding names a class of inputs by a predicate registered by the check module
+        # (chk.known_preds[finding id] = fn(rec) -> bool); without a predicate nothing is suppressed
+        pred = self.known_preds.get(k["id"])
+        try:
+            return bool(pred and pred(rec))
+        except Exception:
+            return False
 
     def write_replay(self, name, obj):
         d = os.path.join(ROOT, "replays")
@@ -571,6 +616,8 @@ class Check:
             "known_findings_hit": sorted(self.known_hits),
             "repo_hash": repo_hash(),
         }
+        if self.coqchk:
+            cov["coqchk"] = self.coqchk
         cov.update(self.extra)
         ev = {"property_id": self.pid, "tier": self.tier, "seed": self.seed, "level": "proof", "coverage": cov,
               "assumptions": self.assumptions, "wall_s": round(wall, 2), "violations": violations}
